@@ -86,13 +86,18 @@ def joint_blocks(phases):
 class Impl:
     def __init__(self, cmp_mod, vcf_mod, genotype_cls):
         self.cmp, self.vcf, self.Genotype = cmp_mod, vcf_mod, genotype_cls
+        self.multiallelic = False
 
     def table(self, rows):
         """rows: (position, genotype alleles, None | (block id, (a, b)))"""
         vt = self.vcf.VariantTable("chr1", [SAMPLE])
         for pos, gt, ph in rows:
             phase = None if ph is None else self.vcf.VariantCallPhase(block_id=ph[0], phase=tuple(ph[1]), quality=None)
-            vt.add_variant(self.vcf.BiallelicVcfVariant(pos, "A", "C"), [self.Genotype(list(gt))], [phase], [None], [None])
+            if self.multiallelic:  # what VcfReader(mav=True) builds for a record with two ALT alleles
+                variant = self.vcf.MultiallelicVcfVariant(pos, "A", ("C", "G"))
+            else:
+                variant = self.vcf.BiallelicVcfVariant(pos, "A", "C")
+            vt.add_variant(variant, [self.Genotype(list(gt))], [phase], [None], [None])
         return vt
 
     def compare(self, tables, names):
@@ -511,7 +516,11 @@ class PairMultiallelic(_Pair):
             e.cover("different genotypes")
 
         def call(rws, what):
-            tables = [impl.table(rw) for rw in rws]
+            impl.multiallelic = True
+            try:
+                tables = [impl.table(rw) for rw in rws]
+            finally:
+                impl.multiallelic = False
             try:
                 return self.observe(impl.compare(tables, self.names))
             except Exception as ex:
